@@ -85,6 +85,26 @@ Theorem C15_heartbeat_only_while_live : forall w ls s, run (init w) ls = Some s 
 Proof. exact heartbeat_final. Qed.
 Print Assumptions C15_heartbeat_only_while_live.
 
+(* ---- the heartbeat obligation does not depend on the member assignment of the SyncGroup answer
+   (empty for a stand-by member, not covering every configured topic, or spanning several topics):
+   (1) a label sequence and the same sequence with every assignment erased have the same run, so
+   every theorem of this file holds for every assignment; (2) whatever was assigned, once the
+   offset fetch succeeded the heartbeat function is started as an ACCOUNTED function of the new
+   generation, and (3) as long as it has not returned, a heartbeat tick with any coordinator answer
+   is enabled (a RebalanceInProgress answer makes it return, which ends the generation:
+   C15_cancel_on_end_triggers, C15_cancel_on_end).  That ticks come at HeartbeatInterval is a clock
+   claim outside the model. ---- *)
+Theorem C15_heartbeats_independent_of_assignment :
+  (forall ls s, run s (map erase_asg ls) = run s ls) /\
+  (forall w ls s, run (init w) ls = Some s ->
+    (pc s = PStartHB ->
+       exists s' f, step s LStartHB = Some s' /\ nth_error (fns s') (length (fns s)) = Some f /\
+                    is_hb f = true /\ f_acc f = true /\ f_gen f = cur s /\ f_st f = FRunning) /\
+    (forall i f a, nth_error (fns s) i = Some f -> is_hb f = true -> running f = true ->
+       exists s', step s (LHbTick i a) = Some s')).
+Proof. exact (conj run_erase_asg heartbeat_started_and_enabled). Qed.
+Print Assumptions C15_heartbeats_independent_of_assignment.
+
 (* ---- re-join after back-off: between a failure of nextGeneration other than
    RebalanceInProgress and any later coordinator / JoinGroup request there is a Backoff ---- *)
 Theorem C15_rejoin_after_backoff : forall w ls s, run (init w) ls = Some s ->
@@ -179,15 +199,15 @@ Print Assumptions C15_generation_end_order.
 (* ---- non-vacuity: a run with two generations, a watcher, accounted and late starts, a failed
    heartbeat-less rebalance by function exit, a failed join with back-off, Close during publish ---- *)
 Definition C15_example_run : list label :=
-  [LCoord AOk; LJoin (JOk 1 LeaderOk); LSync AOk; LFetch AOk; LStartHB; LStartWatch;
+  [LCoord AOk; LJoin (JOk 1 LeaderOk); LSync AOk [(0, [0; 1])]; LFetch AOk; LStartHB; LStartWatch;
    LNextCall 0; LNextGen 0; LStart 0; LStart 0; LHbTick 0 AOk; LWatchInit 1 AOk;
    LFnReturn 2; LFnHandler 2; LWaitGenDone; LGenCloseLock; LStart 0; LFnSeeDone 0; LFnSeeDone 1;
    LFnHandler 1; LFnReturn 3; LFnHandler 0; LFnHandler 3; LGenCloseJoined;
    LCoord AOk; LJoin (JErr EKafka); LLeaveCoord AOk; LLeaveReq AOk; LNextCall 1; LNextErr 1; LBackoffFire;
-   LCoord AOk; LJoin (JOk 2 NotLeader); LSync AOk; LFetch AOk; LStartHB; LStartWatch;
+   LCoord AOk; LJoin (JOk 2 NotLeader); LSync AOk []; LFetch AOk; LStartHB; LStartWatch;
    LNextCall 2; LNextGen 2; LHbTick 5 (AErr ERebalance); LFnHandler 5;
    LWatchInit 6 (AErr EDropped); LFnHandler 6; LWaitGenDone; LGenCloseLock;
-   LCoord AOk; LCloseCall 0; LJoin (JOk 2 NotLeader); LSync AOk; LFetch AOk; LStartHB; LStartWatch;
+   LCoord AOk; LCloseCall 0; LJoin (JOk 2 NotLeader); LSync AOk [(0, [3]); (1, [0; 2])]; LFetch AOk; LStartHB; LStartWatch;
    LPublishAbort; LGenCloseLock; LFnSeeDone 7; LFnHandler 7; LWatchInit 8 AOk; LFnSeeDone 8; LFnHandler 8;
    LGenCloseJoined; LLeaveCoord AOk; LLeaveReq AOk; LCloseRet 0].
 
